@@ -124,6 +124,16 @@ fn check(bytes: &[u8], b: &Value) -> Result<(), String> {
     }
     // ---- merged regions
     wb.load_merged_regions().map_err(|e| format!("load_merged_regions: {}", e))?;
+    // loading again (and loading the tables again) reports every region / table once, as declared
+    let n_regions = wb.merged_regions().len();
+    wb.load_merged_regions().map_err(|e| format!("load_merged_regions (again): {}", e))?;
+    if wb.merged_regions().len() != n_regions {
+        return Err(format!("{} merged regions after a second load_merged_regions, {} after the first", wb.merged_regions().len(), n_regions));
+    }
+    wb.load_tables().map_err(|e| format!("load_tables (again): {}", e))?;
+    if wb.table_names().len() != 1 {
+        return Err(format!("{} tables after a second load_tables", wb.table_names().len()));
+    }
     let mut want_all = Vec::new();
     for (name, key) in [("S1", "merges1"), ("S2", "merges2")] {
         let want: Vec<Value> = b[key].as_array().unwrap().clone();
